@@ -415,6 +415,42 @@ C12_frame(step) ==
 C12Clauses(step) == IF "con" \in DOMAIN step.pre THEN {C12_frame(step)} ELSE {}
 
 -----------------------------------------------------------------------------
+(* C04 — document equality is an equivalence that coincides with content     *)
+(* equivalence.  step.res = [eq, ne: matrices over step.op.hs; rec: per pair  *)
+(* of top-level records of the first two handles: [i, j, eq, qe, hi, hj]]     *)
+NormV(v) == IF v.t \in NumKinds THEN [t |-> "num", v |-> v.v] ELSE v
+NormContent(r) == [k |-> r.k, id |-> r.id, attrs |-> {[a |-> x.a, v |-> NormV(x.v)] : x \in SeqToSet(r.attrs)}]
+RecSet(obs, h) == {NormContent(obs.con[h].recs[i]) : i \in 1..Len(obs.con[h].recs)}
+ContentEquiv(obs, h1, h2) ==
+  /\ obs.con[h1].kind = obs.con[h2].kind
+  /\ RecSet(obs, h1) = RecSet(obs, h2)
+  /\ {obs.con[b].id : b \in SeqToSet(obs.con[h1].bundles)} = {obs.con[b].id : b \in SeqToSet(obs.con[h2].bundles)}
+  /\ \A b1 \in SeqToSet(obs.con[h1].bundles) : \A b2 \in SeqToSet(obs.con[h2].bundles) :
+        obs.con[b1].id = obs.con[b2].id => RecSet(obs, b1) = RecSet(obs, b2)
+CmpIdx(step) == 1..Len(step.op.hs)
+C04_refl(step) == Cl("C04_refl", TRUE, \A i \in CmpIdx(step) : step.res.eq[i][i])
+C04_sym(step)  == Cl("C04_sym", TRUE, \A i, j \in CmpIdx(step) : step.res.eq[i][j] = step.res.eq[j][i])
+C04_ne(step)   == Cl("C04_ne", TRUE, \A i, j \in CmpIdx(step) : step.res.ne[i][j] = ~step.res.eq[i][j])
+C04_trans(step) ==
+  Cl("C04_trans", Len(step.op.hs) >= 3,
+     \A i, j, k \in CmpIdx(step) : (step.res.eq[i][j] /\ step.res.eq[j][k]) => step.res.eq[i][k])
+C04_content(step) ==
+  Cl("C04_content", TRUE,
+     \A i, j \in CmpIdx(step) :
+        step.res.eq[i][j] = ContentEquiv(step.post, step.op.hs[i], step.op.hs[j]))
+C04_hash(step) ==
+  Cl("C04_hash", Len(step.res.rec) > 0,
+     \A n \in 1..Len(step.res.rec) : LET e == step.res.rec[n] IN
+        /\ e.eq = e.qe
+        /\ e.eq => e.hi = e.hj
+        /\ e.eq = (NormContent(step.post.con[step.op.hs[1]].recs[e.i]) =
+                   NormContent(step.post.con[step.op.hs[2]].recs[e.j])))
+C04Clauses(step) ==
+  IF step.op.op = "CompareAll" /\ step.exc = "none"
+  THEN {C04_refl(step), C04_sym(step), C04_ne(step), C04_trans(step), C04_content(step), C04_hash(step)}
+  ELSE {}
+
+-----------------------------------------------------------------------------
 (* Conformance (drift) clauses: the model's post-state against the logged   *)
 (* one.  A failure here never becomes a VIOLATION (DESIGN 2.5).             *)
 M_Names(msPost, mres, step) ==
@@ -438,5 +474,6 @@ M_Con(msPost, step) ==
         /\ ProjCon(msPost.con[h]).id = step.post.con[h].id
         /\ msPost.con[h].bundles = step.post.con[h].bundles)
 M_Exc(r, step) == Cl("M_Exc", TRUE, r.exc = step.exc)
+M_Eq(r, step) == Cl("M_Eq", step.op.op = "CompareAll" /\ step.exc = "none", r.res = step.res.eq)
 
 =============================================================================
